@@ -36,6 +36,11 @@ DISTURBANCES = {
     "return-in-void": "void bad(int[0,31] v) { return v; }\n",
     "unterminated-initialiser": "int[0,31] bad[2] = { 1, ;\n",
     "call-of-unknown-function": "void bad(int[0,31] v) { nosuch_fn(v); }\n",
+    # syntax errors from which the grammar recovers *inside* a quantifier's body (parentheses, call arguments): the block's parse
+    # succeeds although the quantifier was never closed (the parentheses / the call enclose the quantifier)
+    "recovered-error-in-quantifier-parentheses": "bool bad = (forall (v : int[0,36]) v >= ) || true;\n",
+    "recovered-error-in-quantifier-call": "int[0,99] bad = abs(sum (v : int[0,37]) v + );\n",
+    "recovered-error-in-nested-quantifiers": "bool bad = (exists (w9 : int[0,1]) forall (v : int[0,38]) v + w9 > ) && true;\n",
 }
 # disturbances that are syntactically well formed: nothing after them may be skipped, every later declaration must be in the document
 SEMANTIC_ONLY = {"missing-return", "unknown-identifier-in-body", "duplicate-definition-in-body", "bad-struct-field", "return-in-void",
